@@ -36,6 +36,12 @@ type Obligation struct {
 	Model  string
 	RefuteModel  string
 	RefuteSolver string
+	Replayable   bool              // the function may be called on a model's input (replay.go)
+	ReplayAssume []string          // `replay assume` directives evaluated at the obligation's program point (candidate queries only)
+	ReplayArgs   map[string][]Term // terms for `replay input` directives, evaluated at the obligation's program point
+	CandidateModel  string // model of the refutation query without its quantified assumptions (input candidate for the replay only)
+	CandidateFile   string
+	CandidateSolver int
 	Disagree     bool
 	lemmaIdx int
 	Wall     float64
@@ -61,6 +67,7 @@ type Verifier struct {
 	repoDir      string
 	axioms       []axiomText
 	rtypeIDs     map[string]int
+	embeddedPtr  map[string]bool   // heap variables of embedded pointer fields (e.g. FileIP.BaseIP)
 	heapIsRef    map[string]string // heap variable -> "field" / "mapval:<keysort>" when its values are references
 	constGlobals map[string]Term // package-level variables that are initialised with a constant and never assigned again
 	lazyGlobal   map[string]string // initial heap symbol -> closedness axiom (included when the symbol is mentioned)
@@ -88,7 +95,7 @@ func loadVerifier(repo string) (*Verifier, error) {
 	prog, spkgs := ssautil.AllPackages(pkgs, ssa.GlobalDebug)
 	prog.Build()
 	v := &Verifier{prog: prog, pkgs: pkgs, spkgs: map[string]*ssa.Package{}, decls: newDecls(), heapSorts: map[string]string{},
-		fnByKey: map[string]*ssa.Function{}, funcsDone: map[string]bool{}, repoDir: repo, rtypeIDs: map[string]int{}, heapIsRef: map[string]string{}, lazyGlobal: map[string]string{}, constGlobals: map[string]Term{}}
+		fnByKey: map[string]*ssa.Function{}, funcsDone: map[string]bool{}, repoDir: repo, rtypeIDs: map[string]int{}, heapIsRef: map[string]string{}, embeddedPtr: map[string]bool{}, lazyGlobal: map[string]string{}, constGlobals: map[string]Term{}}
 	for i, p := range pkgs {
 		if spkgs[i] != nil {
 			v.spkgs[p.PkgPath] = spkgs[i]
